@@ -182,7 +182,7 @@ def gen_case(rng, tier):
         spec, src = gen_language(rng, Cfg(max_assets=5, max_assocs=5, max_depth=1, dup_assoc_names=0.4)), 'generated'
     lang = Lang(spec)
     names = ['srv', 'db', 'n', 'n:1', 'a:b', None, None] + rng.sample(HOSTILE, 4)
-    hist = gen_history(rng, lang, rng.randint(2, 40), invalid=0.0, names=names)
+    hist = gen_history(rng, lang, rng.randint(2, 40) if rng.random() < 0.96 else rng.randint(120, 250), invalid=0.0, names=names)
     extra_ops = []
     for _ in range(rng.randint(0, 3)):
         extra_ops.append(['set_extras', ['live', rng.randrange(64)], rng.choice(EXTRAS)])
